@@ -56,6 +56,21 @@ def separable_panel(seed, n, c, t, n_classes):
     return X, cls
 
 
+def two_frequency_panel(seed, n, t, noise, test_noise, n_test):
+    """Two classes told apart by the frequency of a sinusoid: several dictionary word lengths
+    reach the same train accuracy; noisy test instances make ensemble members disagree."""
+    rng = np.random.RandomState(seed % (2 ** 31 - 1))
+    tt = np.arange(t)
+    cls = np.array([i % 2 for i in range(n)])
+    X = rng.normal(scale=noise, size=(n, 1, t))
+    X[cls == 0, 0, :] += np.sin(tt / 3.0)
+    X[cls == 1, 0, :] += np.sin(tt / 1.5)
+    Xt = rng.normal(scale=test_noise, size=(n_test, 1, t))
+    Xt[::2, 0, :] += np.sin(tt / 3.0)
+    Xt[1::2, 0, :] += np.sin(tt / 1.5)
+    return np.round(X, 6), cls, np.round(Xt, 6)
+
+
 # ----------------------------------------------------------------------------- classifiers / regressors
 CLASSIFIERS = ("tsf", "rise", "stsf", "boss", "iboss", "cboss", "muse", "itde", "cec")
 FAST_CLASSIFIERS = ("tsf", "rise", "boss", "iboss", "cboss", "itde", "cec")
@@ -80,7 +95,7 @@ def build_classifier(spec):
     if k == "boss":
         from sktime.classification.dictionary_based import BOSSEnsemble
 
-        return BOSSEnsemble(max_ensemble_size=3, random_state=rs, n_jobs=nj)
+        return BOSSEnsemble(max_ensemble_size=spec.get("max_ensemble_size", 3), random_state=rs, n_jobs=nj)
     if k == "iboss":
         from sktime.classification.dictionary_based import IndividualBOSS
 
